@@ -360,6 +360,11 @@ func AuthorizeTokenExchangeClient(ctx context.Context, clientID, clientSecret st
 	ctx, span := tracer.Start(ctx, "AuthorizeTokenExchangeClient")
 	defer span.End()
 
+	if clientSecret == "" {
+		// token exchange requires an authenticated client: an empty secret authenticates nobody,
+		// whatever the storage answers for it (a public client has none)
+		return nil, oidc.ErrInvalidClient().WithDescription("client must be authenticated")
+	}
 	if err := AuthorizeClientIDSecret(ctx, clientID, clientSecret, exchanger.Storage()); err != nil {
 		return nil, err
 	}
